@@ -30,6 +30,8 @@ CONSTANTS
     Dists,            \* the distribution patterns offered when DistAll (1: unlabelled, 2: fully labelled, 3 and 4:
                       \* weighted spreads that give the positions of a compound DIFFERENT enrichments)
     LinMode,          \* "doc" | "pinned"
+    SessMemo,         \* FALSE: a second build on the same mapper follows the base model as it is then;
+                      \* TRUE (wrong instance): it uses the reactions remembered from the first build
     EmitOn
 
 VARIABLES tpl, ord, nl, maps, ci, ri, dk, stage,
@@ -204,6 +206,18 @@ Compute(d) ==
         \* the model is homogeneous of degree 0 in (pools, fluxes): the unit of amount does not matter
         scaled |-> [m \in 2..3 |-> LinRhs(b, [c \in DOMAIN pool |-> m * pool[c]], [j \in DOMAIN flux |-> m * flux[j]],
                                          e0, Xs[2], LinMode)],
+        \* pool sizes are parameters of the built model too: pools doubled (fluxes as they are)
+        pool2 |-> LinRhs(b, [c \in DOMAIN pool |-> 2 * pool[c]], flux, e0, Xs[2], LinMode),
+        \* a session on ONE LinearLabelMapper: build, then the BASE model's reactions are edited so that the compounds of
+        \* every reaction side are written in the opposite order (maps are positional: another labelling network), then
+        \* build again; the second build is the linear model of the edited base model
+        sess |-> LET b2 == Reorder(b, "swap") IN
+                 IF b2 = b THEN <<>>
+                 ELSE LET y2 == LRhs(b2, y, "occurrence") IN
+                      <<[b2 |-> b2, x |-> Q!One, e |-> e0,
+                         de  |-> LinRhs(IF SessMemo THEN b ELSE b2, pool, flux, e0, Q!One, "doc"),
+                         iso |-> IsoEnrichRateD(b2, y, y2),
+                         inv2 |-> \A j \in DOMAIN b2.rxns : Involutive(b2, b2.rxns[j])]>>,
         pin |-> IF inv THEN [k \in 1..Len(Xs) |-> LinRhs(b, pool, flux, e0, Xs[k], "pinned")] ELSE <<>>,
         doc |-> IF inv THEN [k \in 1..Len(Xs) |-> LinRhs(b, pool, flux, e0, Xs[k], "doc")] ELSE <<>>]
 
@@ -241,6 +255,12 @@ Scenario ==
      involutive |-> sc.involutive, hist |-> HistEvals,
      \* the same case with amounts in a unit 2^SmallUnit times larger (pools and fluxes 2^-SmallUnit times the numbers):
      \* by ThScale the rates are those of the case itself
+     \* build(pools, fluxes, EXT = 1/2), evaluate, update_parameters(pools doubled), evaluate, update_parameters(fluxes
+     \* doubled), evaluate: LinRhs at the parameter values in force (the last equals the first by ThScale)
+     pool_hist |-> <<[mul_pool |-> 1, mul_flux |-> 1, x |-> Xs[2], e |-> sc.e0, de |-> sc.lin[2]],
+                     [mul_pool |-> 2, mul_flux |-> 1, x |-> Xs[2], e |-> sc.e0, de |-> sc.pool2],
+                     [mul_pool |-> 2, mul_flux |-> 2, x |-> Xs[2], e |-> sc.e0, de |-> sc.scaled[2]]>>,
+     sess |-> sc.sess,
      unit_evals |-> <<[unit |-> SmallUnit, x |-> Xs[2], e |-> sc.e0, de |-> sc.lin[2]]>>,
      evals |-> <<[what |-> "isotopomer-derived", x |-> Q!One, e |-> sc.e0, de |-> sc.iso]>>
                \o [k \in 1..2 |-> [what |-> "linear definition, EXT below 1", x |-> Xs[k], e |-> sc.e0, de |-> sc.lin[k]]]
@@ -257,6 +277,8 @@ ThZero     == Done => sc.uni[1] = ZeroFn                                   \* Xs
 \* the model's answer depends on the external enrichment last set, not on the one it was built with
 ThParam    == Done => \A i \in 1..Len(Hists) : \A j \in 2..Len(Hists[i]) :
                  AfterHistory([q \in 1..j |-> Xs[Hists[i][q]]]) = BuiltModel(Xs[Hists[i][j]])
+\* second build of a session = the linear model of the edited base model = the isotopomer model of the edited base model
+ThSess     == (Done /\ sc.sess # <<>>) => sc.sess[1].de = sc.sess[1].iso
 ThScale    == Done => \A m \in 2..3 : sc.scaled[m] = sc.lin[2]
 ThInvol    == (Done /\ sc.involutive) => sc.pin = sc.doc
 \* every rational stayed in Rat's safe range
